@@ -49,7 +49,9 @@ CLAIMS = {
         tech="Lean 4 proof (corollaries of C02) + differential correspondence"),
     'C15': dict(
         text="c15_sub_denote, c15_sub_forwards, inline_sdenote, c15_inline_rows: a sub-query in condition position at any depth "
-             "under &,| returns the rows of the flattened query. Correspondence: composed vs flattened vs oracle, tree shape.",
+             "under &,| returns the rows of the flattened query. c15_operand_pairs_survive (+ regenerated tie "
+             "c15_operand_requirement_tied): the outputs of a correlated sub-query operand, de-duplicated on (other operand's value, "
+             "solution), keep every pair that satisfies the comparison (R36). Correspondence: composed vs flattened vs oracle, tree shape.",
         note=BASE_NOTE + "Sub-queries as comparison operands / constructor arguments: correspondence only (rows against the oracle of "
              "the explicit twin: uncorrelated an / the operands, correlated the(...), correlated an(...) whose own variable is what "
              "the enclosing query selects (R36), a sub-query constraining a flattened element it does not select). A comparison with a "
